@@ -14,6 +14,8 @@ mod vlog;
 mod gen;
 #[path = "/verif/harness/seq/app/ibc.rs"]
 mod ibc;
+#[path = "/verif/harness/seq/app/oracle.rs"]
+mod oracle;
 #[path = "/verif/harness/seq/app/proposals.rs"]
 mod proposals;
 #[path = "/verif/harness/seq/app/sim.rs"]
